@@ -514,7 +514,8 @@ def merge_rotations(circuit: Circuit):
     # TODO: could extend to other variational gates, standard or native to some devices (XX, etc)
     rot_gates = {"RX", "RY", "RZ", "CRX", "CRY", "CRZ", "PHASE", "CPHASE"}
 
-    for gi, gate in enumerate(circuit):
+    # Merged parameters are accumulated in copies: the gates of the input circuit are left untouched
+    for gi, gate in enumerate(copy.deepcopy(circuit._gates)):
         merge_gate = False
 
         # Identify qubits the current gate acts on.
